@@ -294,3 +294,185 @@ for _k, _g, _nt in [
 ]:
     CONTRACTS[FU + _k].gen = _g
     CONTRACTS[FU + _k].nontrivial = _nt
+
+
+# ----------------------------------------------------------------------------- corollaries (compositions of the contracts above)
+_CHI1 = "arr1(N, lambda k: ((data[k] - model_data[k]) / noise_map[k]) ** 2)"
+# (NN == N; written over noise_map's own length so that it denotes the ghost array of noise_normalization_from's contract)
+_LOG1 = "arr1(NN, lambda k: log(2 * pi * noise_map[k] ** 2.0))"
+
+corollary(
+    "C08.slim_statistics_follow_definitions", props=["C08"],
+    vars={"data": "real[1]", "model_data": "real[1]", "noise_map": "real[1]"},
+    let={"N": "data.shape[0]", "NN": "noise_map.shape[0]"},
+    requires=["model_data.shape[0] == N", "noise_map.shape[0] == N", "forall(0, N, lambda k: noise_map[k] > 0)"],
+    calls=[("r", FU + "residual_map_from", {"data": "data", "model_data": "model_data"}),
+           ("m", FU + "chi_squared_map_from", {"residual_map": "r", "noise_map": "noise_map"}),
+           ("c", FU + "chi_squared_from", {"chi_squared_map": "m"}),
+           ("nn", FU + "noise_normalization_from", {"noise_map": "noise_map"}),
+           ("ll", FU + "log_likelihood_from", {"chi_squared": "c", "noise_normalization": "nn"})],
+    ensures=[
+        "c08_same1(m, " + _CHI1 + ")",
+        # chi-squared = sum(((data - model)/noise)^2)
+        "c == c08_sum1(" + _CHI1 + ", N)",
+        # log likelihood = -(chi-squared + noise normalization)/2 with both terms as defined
+        "ll == -(c08_sum1(" + _CHI1 + ", N) + c08_sum1(" + _LOG1 + ", NN)) / 2",
+    ],
+    sentence="slim mode: residual = data - model, chi-squared = sum((residual/noise)^2), noise normalization = sum(log(2 pi noise^2)) "
+             "and log likelihood = -(chi-squared + normalization)/2, composed through the real functions",
+)
+
+_CHI2T = "(({d}[i, j] - {m}[i, j]) / {n}[i, j]) ** 2"
+_LOG2T = "log(2 * pi * {n}[i, j] ** 2.0)"
+_A = dict(d="data", m="model_data", n="noise_map")
+_B = dict(d="data_b", m="model_b", n="noise_b")
+_CHI2 = _CHI2T.format(**_A)
+
+
+def _m2(f):
+    return "arr2(H, W, lambda i, j: ((" + f + ") if mask[i, j] == 0 else 0))"
+
+
+corollary(
+    "C08.masked_statistics_follow_definitions", props=["C08"],
+    vars={"data": "real[2]", "model_data": "real[2]", "noise_map": "real[2]", "mask": "bool[2]"},
+    let=HW,
+    requires=_shape2("data", "model_data", "noise_map") + [_POS2],
+    calls=[("r", FU + "residual_map_with_mask_from", {"data": "data", "mask": "mask", "model_data": "model_data"}),
+           ("m", FU + "chi_squared_map_with_mask_from", {"residual_map": "r", "noise_map": "noise_map", "mask": "mask"}),
+           ("c", FU + "chi_squared_with_mask_from", {"chi_squared_map": "m", "mask": "mask"}),
+           ("f", FU + "chi_squared_with_mask_fast_from", {"data": "data", "mask": "mask", "model_data": "model_data", "noise_map": "noise_map"})],
+    ensures=[
+        "c08_same2(" + _m2("m[i, j]") + ", " + _m2(_CHI2) + ")",
+        # the chi-squared obtained through the masked maps is sum(((data - model)/noise)^2) over the unmasked pixels only ...
+        "c == c08_sum2(" + _m2(_CHI2) + ", H, 0)",
+        # ... and the fused evaluation returns the same number
+        "c == f",
+    ],
+    sentence="masked-native mode: the statistics obtained through the masked maps are the sums over unmasked pixels only",
+)
+
+_AGREE = ("forall(0, H, lambda i: forall(0, W, lambda j: implies(mask[i, j] == 0, data[i, j] == data_b[i, j]"
+          " and model_data[i, j] == model_b[i, j] and noise_map[i, j] == noise_b[i, j]), pat=mask[i, j]))")
+_VARS2 = {"data": "real[2]", "model_data": "real[2]", "noise_map": "real[2]",
+          "data_b": "real[2]", "model_b": "real[2]", "noise_b": "real[2]", "mask": "bool[2]"}
+# two datasets / models that agree on the unmasked pixels and carry ARBITRARY values in the masked ones
+_REQ2 = _shape2("data", "model_data", "noise_map", "data_b", "model_b", "noise_b") + [_POS2, _AGREE]
+_FAST = lambda d, m, n: {"data": d, "mask": "mask", "model_data": m, "noise_map": n}
+_SENT = "values carried in masked pixels never change "
+
+corollary(
+    "C08.masked_values_never_change_chi_squared", props=["C08"], vars=_VARS2, let=HW, requires=_REQ2,
+    calls=[("f", FU + "chi_squared_with_mask_fast_from", _FAST("data", "model_data", "noise_map")),
+           ("fb", FU + "chi_squared_with_mask_fast_from", _FAST("data_b", "model_b", "noise_b"))],
+    ensures=["c08_same2(" + _m2(_CHI2T.format(**_A)) + ", " + _m2(_CHI2T.format(**_B)) + ")", "f == fb"],
+    sentence=_SENT + "chi-squared",
+)
+
+corollary(
+    "C08.masked_values_never_change_the_likelihood", props=["C08"], vars=_VARS2, let=HW, requires=_REQ2,
+    calls=[("f", FU + "chi_squared_with_mask_fast_from", _FAST("data", "model_data", "noise_map")),
+           ("fb", FU + "chi_squared_with_mask_fast_from", _FAST("data_b", "model_b", "noise_b")),
+           ("n", FU + "noise_normalization_with_mask_from", {"noise_map": "noise_map", "mask": "mask"}),
+           ("nb", FU + "noise_normalization_with_mask_from", {"noise_map": "noise_b", "mask": "mask"}),
+           ("ll", FU + "log_likelihood_from", {"chi_squared": "f", "noise_normalization": "n"}),
+           ("llb", FU + "log_likelihood_from", {"chi_squared": "fb", "noise_normalization": "nb"})],
+    ensures=["c08_same2(" + _m2(_LOG2T.format(**_A)) + ", " + _m2(_LOG2T.format(**_B)) + ")", "n == nb",
+             "c08_same2(" + _m2(_CHI2T.format(**_A)) + ", " + _m2(_CHI2T.format(**_B)) + ")", "ll == llb"],
+    sentence=_SENT + "the noise normalization or the log likelihood",
+)
+
+corollary(
+    "C08.masked_values_never_change_the_maps", props=["C08"], vars=_VARS2, let=HW, requires=_REQ2,
+    calls=[("r", FU + "residual_map_with_mask_from", {"data": "data", "mask": "mask", "model_data": "model_data"}),
+           ("rb", FU + "residual_map_with_mask_from", {"data": "data_b", "mask": "mask", "model_data": "model_b"}),
+           ("m", FU + "chi_squared_map_with_mask_from", {"residual_map": "r", "noise_map": "noise_map", "mask": "mask"}),
+           ("mb", FU + "chi_squared_map_with_mask_from", {"residual_map": "rb", "noise_map": "noise_b", "mask": "mask"}),
+           ("c", FU + "chi_squared_with_mask_from", {"chi_squared_map": "m", "mask": "mask"}),
+           ("cb", FU + "chi_squared_with_mask_from", {"chi_squared_map": "mb", "mask": "mask"})],
+    ensures=[
+        # the maps themselves are identical everywhere (0 at masked entries, the same value at unmasked ones)
+        "forall(0, H, lambda i: forall(0, W, lambda j: r[i, j] == rb[i, j] and m[i, j] == mb[i, j]))",
+        "c08_same2(" + _m2("m[i, j]") + ", " + _m2("mb[i, j]") + ")",
+        "c == cb",
+    ],
+    sentence=_SENT + "the masked residual / chi-squared maps or the chi-squared summed from them",
+)
+
+
+# ----------------------------------------------------------------------------- complex (visibility) variants and noise covariance
+_POSC = "forall(0, N, lambda k: creal(noise_map[k]) > 0 and cimag(noise_map[k]) > 0)"
+
+contract(
+    FU + "chi_squared_map_complex_from", props=["C08"],
+    types={"residual_map": "complex[1]", "noise_map": "complex[1]"}, returns="complex[1]", let={"N": "residual_map.shape[0]"},
+    requires=["noise_map.shape[0] == N", _POSC],
+    ensures=["result.shape[0] == N",
+             "forall(0, N, lambda k: creal(result[k]) == (creal(residual_map[k]) / creal(noise_map[k])) ** 2"
+             " and cimag(result[k]) == (cimag(residual_map[k]) / cimag(noise_map[k])) ** 2)"],
+    sentence={"forall": "chi-squared map = (residual / noise)^2, element-wise, separately for real and imaginary parts"},
+)
+
+contract(
+    FU + "chi_squared_complex_from", props=["C08"],
+    types={"chi_squared_map": "complex[1]"}, returns="real", let={"N": "chi_squared_map.shape[0]"},
+    ensures=["result == c08_sum1(arr1(N, lambda k: creal(chi_squared_map[k])), N) + c08_sum1(arr1(N, lambda k: cimag(chi_squared_map[k])), N)"],
+)
+
+contract(
+    FU + "noise_normalization_complex_from", props=["C08"],
+    types={"noise_map": "complex[1]"}, returns="real", let={"N": "noise_map.shape[0]"},
+    requires=[_POSC],
+    ensures=["result == c08_sum1(arr1(N, lambda k: log(2 * pi * creal(noise_map[k]) ** 2.0)), N)"
+             " + c08_sum1(arr1(N, lambda k: log(2 * pi * cimag(noise_map[k]) ** 2.0)), N)"],
+)
+
+# `.astype('complex128')` of a real array is outside the engine's subset (and cannot be added without editing pyvc/calls.py):
+# full specification, checked at run time only
+contract(
+    FU + "normalized_residual_map_complex_from", props=["C08"], mode="bounded",
+    types={"residual_map": "complex[1]", "noise_map": "complex[1]"}, returns="complex[1]", let={"N": "residual_map.shape[0]"},
+    requires=["noise_map.shape[0] == N", _POSC],
+    ensures=["result.shape[0] == N",
+             "forall(0, N, lambda k: creal(result[k]) == creal(residual_map[k]) / creal(noise_map[k])"
+             " and cimag(result[k]) == cimag(residual_map[k]) / cimag(noise_map[k]))"],
+    note="bounded: ndarray.astype('complex128') is outside the subset",
+)
+
+# `r @ C @ r` (matrix product operator) is outside the subset: full specification r^T C r, checked at run time only
+contract(
+    FU + "chi_squared_with_noise_covariance_from", props=["C08"], mode="bounded",
+    types={"residual_map": "real[1]", "noise_covariance_matrix_inv": "real[2]"}, returns="real", let={"N": "residual_map.shape[0]"},
+    requires=["noise_covariance_matrix_inv.shape[0] == N", "noise_covariance_matrix_inv.shape[1] == N"],
+    ensures=["result == sumto(N, lambda a: sumto(N, lambda b: residual_map[a] * noise_covariance_matrix_inv[a, b] * residual_map[b]))"],
+    note="bounded: the @ operator is outside the subset",
+)
+
+
+def _cplx(rng, n, pos=False):
+    f = (lambda: rng.uniform(0.1, 5.0)) if pos else (lambda: rng.uniform(-5, 5))
+    return np.array([complex(f(), f()) for _ in range(n)], dtype=complex)
+
+
+def _gc(names, pos=()):
+    def g(rng, tier):
+        for _ in range(gens.budget(tier, 150, 2000)):
+            n = rng.randint(0, 6)
+            yield {nm: _cplx(rng, n, nm in pos) for nm in names}
+    return g
+
+
+def _g_cov(rng, tier):
+    for _ in range(gens.budget(tier, 150, 2000)):
+        n = rng.randint(0, 5)
+        yield {"residual_map": gens.reals(rng, (n,), -5, 5, special=False),
+               "noise_covariance_matrix_inv": gens.reals(rng, (n, n), -3, 3, special=False)}
+
+
+for _k, _g in [("chi_squared_map_complex_from", _gc(["residual_map", "noise_map"], pos=["noise_map"])),
+               ("chi_squared_complex_from", _gc(["chi_squared_map"])),
+               ("noise_normalization_complex_from", _gc(["noise_map"], pos=["noise_map"])),
+               ("normalized_residual_map_complex_from", _gc(["residual_map", "noise_map"], pos=["noise_map"])),
+               ("chi_squared_with_noise_covariance_from", _g_cov)]:
+    CONTRACTS[FU + _k].gen = _g
+    CONTRACTS[FU + _k].nontrivial = _nt_len
